@@ -278,6 +278,39 @@ let rt_op (f : string array) =
         | Done rw -> head ^ " ok " ^ hex_of_bytes rw ^ " " ^ res_string parsed_resp_string (parse_response tl2 rw))
      | r -> "ok " ^ hex_of_bytes w ^ " " ^ res_string parsed_req_string r)
 
+(* e2e n <32 tokens per call>: every call is computed from its own tokens only *)
+let e2e_call (f : string array) : string =
+  let tl2 = f.(2) = "1" in
+  let e = parse_req_extra (Array.sub f 4 14) in
+  match prepare_request (nd f.(0)) (nd f.(1)) e tl2 (bytes_of_hex f.(3)) with
+  | None -> "toolarge"
+  | Some w ->
+    (match parse_request w with
+     | Ok q ->
+       let seen = Printf.sprintf "%s %s %s %s %s" (dn q.q_actor) (b01 q.q_tl2) (dn q.q_tag) (hex_of_bytes q.q_body)
+           (req_extra_string q.q_extra) in
+       let re = parse_resp_extra (Array.sub f 20 12) in
+       (match resp_prepare q.q_id q.q_extra.rq_flags q.q_tl2 (bytes_of_hex f.(18)) (err_tok f.(19)) re with
+        | Refused s -> seen ^ " => " ^ s
+        | Failed _ -> "driver-error"
+        | Done rw ->
+          (match parse_response tl2 rw with
+           | Ok a ->
+             let o = match a.a_out with
+               | OBody b -> "B:" ^ hex_of_bytes b
+               | OError (c, d, r) -> Printf.sprintf "E:%s:%s:%s" (dn c) (subhex d) (subhex r) in
+             seen ^ " => " ^ o ^ " " ^ resp_extra_string a.a_extra
+           | Eof -> seen ^ " => eof" | Reject -> seen ^ " => reject"))
+     | Eof -> "eof" | Reject -> "reject")
+
+let e2e_op (f : string list) : string =
+  match f with
+  | n :: rest ->
+    let n = int_of_string n in
+    let a = Array.of_list rest in
+    "ok " ^ String.concat " ; " (List.init n (fun i -> e2e_call (Array.sub a (32 * i) 32)))
+  | _ -> failwith "e2e: bad arguments"
+
 let run = function
   | "stream" :: f -> stream_op false f
   | "corrupt" :: f -> stream_op true f
@@ -290,6 +323,7 @@ let run = function
     (match parse_response (tl2 = "1") (bytes_of_hex h) with Ok a -> "ok " ^ parsed_resp_string a | Eof -> "eof" | Reject -> "reject")
   | "resp" :: f -> resp_op (Array.of_list f)
   | "rt" :: f -> rt_op (Array.of_list f)
+  | "e2e" :: f -> e2e_op f
   | l -> "driver-error unknown op " ^ String.concat " " l
 
 let () = each_line run
